@@ -75,6 +75,7 @@ Derive(s) ==
       win |-> \A f \in 1..Len(s.frames) : fd[f].win,
       skew |-> \A f \in 1..Len(s.frames) : fd[f].skew,
       dih |-> \A f \in 1..Len(s.frames) : fd[f].dih,
+      desc |-> \A f \in 1..Len(s.frames) : fd[f].desc,
       \* a distance exactly on a bin edge of a decimal layout (must not happen: rounding could go either way)
       dectie |-> \E f \in 1..Len(s.frames) : fd[f].dectie]
 
@@ -275,6 +276,10 @@ ScenarioOK ==
   /\ \A x \in 1..NI : sc.inter[x].den # 4 => E2(sc.inter[x], 0) # 0
   \* family 7: a negative and a positive dihedral are counted in every frame; the wildcard pattern really
   \* selects beads of two different types; a decimal layout and a bonded member of an IMC group are present
+  \* descending bead lists: in every frame a pair that is excluded only through lines listing the higher
+  \* bead first lies inside the range of a non-bonded interaction (it must NOT appear in g(r))
+  /\ (sc.kind = 3 /\ ~sc.intra) => dv.desc
+  /\ (sc.kind = 7 /\ sc.ord # 2) => dv.desc
   /\ sc.kind = 7 =>
         /\ dv.dih
         /\ \E x \in 1..NI : /\ sc.inter[x].kind = "nb" /\ Cardinality(sc.inter[x].sel[1]) >= 2
